@@ -248,6 +248,30 @@ Theorem C11_malformed_never_grants_past_first_match : forall L ps p d,
 Proof. exact permits_x_grant_is_first_match. Qed.
 Print Assumptions C11_malformed_never_grants_past_first_match.
 
+Theorem C11_malformed_principals_allowed_when_returned : forall L p A,
+  principals_allowed_x L p = Some A -> A = principals_allowed (strip L) p /\ ~ In XAclNone L.
+Proof. exact principals_allowed_x_some. Qed.
+Print Assumptions C11_malformed_principals_allowed_when_returned.
+
+Theorem C11_malformed_principals_allowed_conservative : forall L p,
+  principals_allowed_x (embed L) p = Some (principals_allowed L p).
+Proof. exact principals_allowed_x_conservative. Qed.
+Print Assumptions C11_malformed_principals_allowed_conservative.
+
+Theorem C11_malformed_permits_vs_generated : forall L ps p,
+  permits_x L ps p =
+  match gen_permits (fst (trunc L)) ps p with
+  | DefaultDeny => if snd (trunc L) then XRaised else XDec DefaultDeny
+  | dd => XDec dd
+  end.
+Proof. exact permits_x_generated. Qed.
+Print Assumptions C11_malformed_permits_vs_generated.
+
+Theorem C11_malformed_principals_allowed_vs_generated : forall L p A,
+  principals_allowed_x L p = Some A -> A = gen_principals_allowed (strip L) p.
+Proof. exact principals_allowed_x_generated. Qed.
+Print Assumptions C11_malformed_principals_allowed_vs_generated.
+
 (* ---- pyramid.location.lineage, regenerated from the source as [gen_lineage] (a world of __parent__ pointers, fuel for
    the while loop).  [is_lineage W r l]: l is r, then r.__parent__, ... up to the first resource whose __parent__ is None
    or missing (Proofs/C11_lineage.v). *)
